@@ -119,6 +119,9 @@ func init() {
 				if mm := Diff(i, out, append([]byte{0xAA, 0xBB}, st.Hex("exp")...)); mm != nil {
 					return mm
 				}
+				if mm := SumRoomy(i, h, []byte{0xAA, 0xBB}, append([]byte{0xAA, 0xBB}, st.Hex("exp")...)); mm != nil {
+					return mm
+				}
 			case "reset":
 				h.Reset()
 				if st.Has("exp") {
